@@ -265,7 +265,8 @@ CHECKS = {
                 "computation. The type/encoding/data_type/channels product "
                 "(720 combinations) goes through set_info_params end to "
                 "end."
-                " A consumer family hands generated descriptions (incl. one-voxel axes) to the real compute_dyadic_scales on tiny datasets: accepted inside the envelope, every level readable.",
+                " A consumer family hands generated descriptions (incl. one-voxel axes) to the real compute_dyadic_scales on tiny datasets: accepted inside the envelope, every level readable."
+                " The quick tier also runs a quarter of its geometries with max_scales 1..3.",
         "note": "Lattice, not all positive reals; 'compatible' = the "
                 "envelope stated in the module. Five recorded known "
                 "findings, matched by failure class, target and number of "
@@ -383,7 +384,8 @@ CHECKS = {
                 "previous level. An exception is accepted only outside the "
                 "envelope the computation supports; outside the envelope a "
                 "normal return must still be correct."
-                " A share of the cases (all methods / outside values / auto selection x 3 storages, and hand-made scale pairs) runs through main(argv) of compute-scales, where a refusal must be a non-zero exit status.",
+                " A share of the cases (all methods / outside values / auto selection x 3 storages, and hand-made scale pairs) runs through main(argv) of compute-scales, where a refusal must be a non-zero exit status."
+                " Float32 volumes hold values whose sums are not exactly representable in float32.",
         "note": "Volumes of at most 700 voxels; the downscaler itself is "
                 "C07's business.",
     },
